@@ -21,7 +21,7 @@
    and honours AsyncCancel.                                                              *)
 EXTENDS OpAbs
 
-CONSTANTS Kind,          \* [Ops -> {"single", "multi", "blocking"}]
+CONSTANTS Kind,          \* [Ops -> {"single", "multi", "zc", "blocking"}]
           SQCAP,         \* submission queue capacity
           MaxMore,       \* bound on MORE completions per multishot operation
           Eager,         \* TRUE: schedule-generation variant - cancelled operations complete at submit time
@@ -70,11 +70,18 @@ SqCancels == {sq[i].o : i \in {j \in 1..Len(sq) : sq[j].t = "cancel"}}
 KernAll == kern \cup SqOps
 KCancelAll == (kcancel \cup SqCancels) \cap KernAll
 \* Eager: an AsyncCancel that finds its target completes it (ECANCELED) before io_uring_enter returns
-EagerSeq == IF Eager THEN SelectSeq(sq, LAMBDA x : x.t = "cancel" /\ x.o \in KernAll) ELSE <<>>
+EagerSeq == IF Eager THEN SelectSeq(sq, LAMBDA x : x.t = "cancel" /\ x.o \in KernAll /\ Kind[x.o] # "zc") ELSE <<>>
 EagerSet == {EagerSeq[i].o : i \in 1..Len(EagerSeq)}
-EagerCq == [i \in 1..Len(EagerSeq) |-> [o |-> EagerSeq[i].o, more |-> FALSE]]
-KernAfterSubmit == KernAll \ EagerSet
-KCancelAfterSubmit == KCancelAll \ EagerSet
+\* Eager: a zero-copy send on a loopback socket produces its result completion (MORE) and its
+\* notification (final) before io_uring_enter returns
+EagerZc == IF Eager THEN SelectSeq(sq, LAMBDA x : x.t = "op" /\ Kind[x.o] = "zc") ELSE <<>>
+EagerZcSet == {EagerZc[i].o : i \in 1..Len(EagerZc)}
+RECURSIVE ZcCq(_)
+ZcCq(z) == IF z = <<>> THEN <<>>
+           ELSE <<[o |-> Head(z).o, more |-> TRUE], [o |-> Head(z).o, more |-> FALSE]>> \o ZcCq(Tail(z))
+EagerCq == ZcCq(EagerZc) \o [i \in 1..Len(EagerSeq) |-> [o |-> EagerSeq[i].o, more |-> FALSE]]
+KernAfterSubmit == (KernAll \ EagerSet) \ EagerZcSet
+KCancelAfterSubmit == (KCancelAll \ EagerSet) \ EagerZcSet
 
 \* poll_entries over a completion queue c: fold producing <<rc, inflight, hasres, events>>
 RECURSIVE PollFold(_, _, _, _, _)
@@ -236,12 +243,14 @@ KeyDrop(o) ==
 KFinal(o) ==
   /\ o \in kern /\ drv \in {"live", "drained"}
   /\ Eager => (Kind[o] = "single" /\ o \notin kcancel /\ drv = "live")
+  /\ Kind[o] = "zc" => mores[o] = 1           \* the notification follows the send result
   /\ kern' = kern \ {o} /\ kcancel' = kcancel \ {o}
   /\ cq' = Append(cq, [o |-> o, more |-> FALSE])
   /\ UNCHANGED <<phase, rc, sq, inflight, cflag, hasres, mores, jobs, chan, token, drv, lost, mon>> /\ last' = <<>>
 
 KMore(o) ==
-  /\ o \in kern /\ Kind[o] = "multi" /\ mores[o] < MaxMore /\ o \notin kcancel /\ drv \in {"live", "drained"}
+  /\ o \in kern /\ Kind[o] \in {"multi", "zc"} /\ mores[o] < (IF Kind[o] = "zc" THEN 1 ELSE MaxMore)
+  /\ o \notin kcancel /\ drv \in {"live", "drained"}
   /\ Eager => drv = "live"
   /\ mores' = [mores EXCEPT ![o] = @ + 1]
   /\ cq' = Append(cq, [o |-> o, more |-> TRUE])
